@@ -714,6 +714,15 @@ func c14dohOnce(m map[string]string) c14outcome {
 			case <-stop:
 			}
 		case "fin", "rst":
+			if m["cut"] == "1" { // the connection dies after the response header and half of the body
+				rb := c14reply(q)
+				w.Header().Set("Content-Type", "application/dns-message")
+				w.Header().Set("Content-Length", fmt.Sprint(len(rb)))
+				w.Write(rb[:len(rb)/2])
+				if f, ok := w.(http.Flusher); ok {
+					f.Flush()
+				}
+			}
 			panic(http.ErrAbortHandler)
 		}
 	})
@@ -855,6 +864,10 @@ func c14matrix(tr string) []c14fault {
 		add("idleclose", "fok", "-") // net/http redials by itself
 		add("pooled", "fok", "-")
 		add("pooled", "fsil", "-")
+		// the server kills the reused connection under the victim's request: before any response, or after the
+		// response header in the middle of the body (cut=1); the exchange is retried on a new connection
+		add("pooled", "pfin,fok", "-")
+		add("pooledcut", "pfin,fok", "-")
 	default: // tcp, tls, with and without pipelining
 		isTLS := strings.HasPrefix(tr, "tls")
 		add("app", "fok", "ad")
@@ -903,6 +916,9 @@ func c14matrix(tr string) []c14fault {
 func c14faultCase(r *rand.Rand, tr string, f c14fault) c14case {
 	script := strings.Split(f.script, ",")
 	cs := fmt.Sprintf("tr=%s fault=%s loop=%s script=%s obs=%s dl=%d", tr, f.fault, c14loopOf(tr), f.script, f.obs, c14dlFor(r, script))
+	if f.fault == "pooledcut" {
+		cs = strings.Replace(cs, "fault=pooledcut", "fault=pooled cut=1", 1)
+	}
 	if f.fault == "tcsil" {
 		cs += fmt.Sprintf(" tcdelay=%d", []int{0, 40, 150}[r.Intn(3)])
 	}
